@@ -29,8 +29,10 @@ def cents(rng, lo, hi):
 
 def pick_value(rng, model, op):
     u = rng.rand()
-    if op in ("SetPol", "SetShadow", "Plot"):
+    if op in ("SetPol", "SetShadow", "Plot", "BySetPol", "BySetShadow"):
         return bool(rng.randint(2))
+    if op == "ByConstruct":
+        return BY_CLASSES[rng.randint(5)]
     if op == "SetSigma":
         return [Fraction(0), Fraction(8), cents(rng, 0, 12)][rng.randint(3)]
     if op == "SetN":
@@ -51,7 +53,8 @@ def pick_value(rng, model, op):
     return cents(rng, 0, 2 * hi)
 
 
-COMMON = ["SetPol", "SetShadow", "SetSigma", "Plot"]
+COMMON = ["SetPol", "SetShadow", "SetSigma", "Plot", "ByConstruct", "BySetPol", "BySetShadow"]
+BY_CLASSES = ["general", "3gpp1", "freespace", "metis", "hata"]
 OPS = {"general": COMMON, "3gpp1": COMMON, "freespace": COMMON + ["SetN", "SetFc", "SetN", "SetFc", "SetPol"],
        "metis": COMMON + ["SetFc", "SetFc", "SetPol"],
        "hata": COMMON + ["SetFc", "SetHbs", "SetHms", "SetArea", "SetFc", "SetHbs", "SetPol"]}
@@ -71,7 +74,8 @@ def record_one(job):
     from pyphysim.channels import pathloss as P
     rng = np.random.RandomState(seed)
     model = ["freespace", "hata", "metis", "freespace", "hata", "general", "3gpp1"][seed % 7]
-    init = dict(n=[0, 1], fc=[1, 1], hbs=[0, 1], hms=[0, 1], area="", pol=False, shadow=False, sigma=[8, 1])
+    init = dict(n=[0, 1], fc=[1, 1], hbs=[0, 1], hms=[0, 1], area="", pol=False, shadow=False, sigma=[8, 1], bpol=False, bshadow=False)
+    by = (None, None)  # another live object (bystander)
     if model == "general":
         n, C = cents(rng, 2, 4), cents(rng, -20, 130)
         o = P.PathLossGeneral(float(n), float(C))
@@ -99,7 +103,15 @@ def record_one(job):
                 v = pick_value(rng, model, op)
                 e = {"op": op, "arg": v if isinstance(v, (bool, str)) else fr(v)}
                 fe = dict(e, op=op)
-                if op == "Plot":  # argument: does the curve start at distance 0 ?
+                if op in ("BySetPol", "BySetShadow") and by[1] is None:
+                    op = "ByConstruct"
+                    v = BY_CLASSES[rng.randint(5)]
+                    e = {"op": op, "arg": v}
+                    fe = dict(e)
+                if op.startswith("By"):
+                    by = c13.by_step(by, e)
+                    fe["out"] = "ok"
+                elif op == "Plot":  # argument: does the curve start at distance 0 ?
                     dd = np.concatenate(([0.0] if v else [], 10.0 ** np.linspace(-2, 3, 11)))
                     fe["out"] = {"val": "ok"}.get(c13.outcome_of(lambda: c13.plot_call(o, dd))[0], "raise")
                 else:
@@ -112,6 +124,9 @@ def record_one(job):
                         post[f] = back_to_rat(pr[k])
                 if "area" in pr:
                     post["area"] = str(pr["area"])
+                if by[1] is not None:
+                    post["bpol"] = by[1].handle_small_distances_bool if isinstance(by[1].handle_small_distances_bool, bool) else "?"
+                    post["bshadow"] = by[1].use_shadow_bool if isinstance(by[1].use_shadow_bool, bool) else "?"
                 fe["post"] = post
                 walls = (0, 2) if model == "metis" else (0,)
                 try:
